@@ -122,7 +122,10 @@ theorem TInvC5b.call_purge {s : Store} {fs : Fs} {w : Worker} {r r' : RefLog} {W
     have := nextIndexChecked_eq habs.pf.purged
     simp only [Store.liftC3b_st] at this
     rw [this, hpu]
-  rw [call_purge_C3b s fsHas upto _ hn hnn hx]
+  have hidxD12 : upto.index + 1 ≠ U64 := by
+    have : upto.index + 1 < U64 := hsm
+    omega
+  rw [call_purge_C3b s fsHas upto _ hn hnn hidxD12 hx]
   simp only
   obtain ⟨pre, hpre, hids, _⟩ := popObsolete_pre_C3b upto s1.closed
   generalize hs2 : ({ s1 with closed := (popObsolete upto s1.closed).2, removed := s1.removed ++ (popObsolete upto s1.closed).1 } : Store) = s2
